@@ -1,7 +1,7 @@
 """C12 - exists, find_one, children and siblings agree with find"""
-from ..rules import search, memo, vocab, mutation, forward
+from ..rules import config, search, memo, vocab, mutation, forward
 
-DECIDES = ("the delegation chain exists -> find_one(as_sid=False) -> first(find(...)) with no override and no other data path (R-DELEG); as_sid branches yield the same entry (R-ASSID); DataSid.exists / children / siblings delegate to FindInAll with self, self / '*', get_as(k).get_with(key=k, value='*'); a leaf has no children via conf.leaf_keys (R-DELEG, R-TBL); every do_find receives an unfolded list (R-UNFOLDALL); nothing on the read path is memoised or keeps state, so a created entity is seen (R-PUREMEMO, R-NOSTATE). Also: exists / find_one / children run the same unfolding pipeline (R-PIPE) and drop entries only for the named reasons (R-SKIPS); routing by type alone (R-FINDERROUTE). An entry is recorded as seen only once it is yielded, so a path rejected for one typed search is still found by the search of its own type (R-DEDUP).")
+DECIDES = ("the delegation chain exists -> find_one(as_sid=False) -> first(find(...)) with no override and no other data path (R-DELEG); as_sid branches yield the same entry (R-ASSID); DataSid.exists / children / siblings delegate to FindInAll with self, self / '*', get_as(k).get_with(key=k, value='*'); a leaf has no children via conf.leaf_keys (R-DELEG, R-TBL); every do_find receives an unfolded list (R-UNFOLDALL); nothing on the read path is memoised or keeps state, so a created entity is seen (R-PUREMEMO, R-NOSTATE). Also: exists / find_one / children run the same unfolding pipeline (R-PIPE) and drop entries only for the named reasons (R-SKIPS); routing by type alone (R-FINDERROUTE). An entry is recorded as seen only once it is yielded, so a path rejected for one typed search is still found by the search of its own type (R-DEDUP). Constants = template vocabulary (R-CONSTVOCAB); aliases are values (R-ALIASVALUE).")
 DOES_NOT_DECIDE = 'membership for concrete data; on-disk ancestry'
 
 
@@ -19,4 +19,6 @@ def rules(ctx, tier):
         lambda: search.rule_finderroute(ctx),
         lambda: mutation.rule_mut(ctx),
         lambda: forward.rule_fwd_assid(ctx),
+        lambda: config.rule_constvocab(ctx),
+        lambda: config.rule_aliasvalue(ctx),
     ]
